@@ -45,7 +45,7 @@ class C03(Check):
         self.rec.unwrap_all()
 
     def budget(self, tier):
-        k = 1 if tier == 'quick' else 30
+        k = 1 if tier == 'quick' else 80
         return {'histories': 500 * k, 'raw_histories': 150 * k, 'zero_row_start': 100 * k, 'unsized_char_start': 200 * k}
 
     # ------------------------------------------------------------------ gen
